@@ -292,8 +292,7 @@ def plot_diagrams_contract(lifetime=False, with_range=False, n_dgms=2, legend=Tr
             out.append(("limits_are_the_requested_range", b_and(lift(x_down) == r[0], lift(x_up) == r[1], lift(y_down) == r[2], lift(y_up) == r[3]), "P"))
         return out
     return Contract(MOD, "plot_diagrams", make_args, requires=requires, ensures=ensures, definedness="P",
-                    hints=[("ax_min, ax_max = np.min(finite_dgms), np.max(finite_dgms)", hint_extent), ("has_inf = np.any(np.isinf(concat_dgms))", hint_any_inf),
-                           ("finite_dgms = concat_dgms[np.isfinite(concat_dgms)]", hint_nonempty)],
+                    hints=[("ax_min, ax_max = ", hint_extent), ("has_inf = ", hint_any_inf), ("finite_dgms = ", hint_nonempty)],
                     variant="lifetime=%s,range=%s,n=%d,legend=%s,title=%s" % (lifetime, with_range, n_dgms, legend, title))
 
 
